@@ -1,5 +1,5 @@
 """Generic decision procedure of a property check (DESIGN.md section 5)."""
-import importlib, json, os, sys, time, traceback
+import importlib, json, os, re, sys, time, traceback
 from common import *
 
 
@@ -100,8 +100,19 @@ def run(prop, tier, seed):
                 known_lines.append("KNOWN-FINDING: property=%s %s" % (prop.id, f.get("what", f.get("id", ""))))
         elif f.get("status") == "fixed" and r:
             hits.append({"stream": "fixed-regression", "case": f.get("input"), "what": "fixed finding %s has returned: %s" % (f.get("id"), r)})
-    known_sigs = [f.get("signature") for f in findings if f.get("status") == "known"]
-    hits = [h for h in hits if not any(s and s in (h.get("what", "") + " " + str(h.get("case", ""))) for s in known_sigs)]
+    # an oracle that recognises a listed finding exactly says so ("KNOWN:<id> ..."); it is reported as such,
+    # once, and only if the committed known_findings.jsonl lists it with status "known"
+    known_ids = {f.get("id"): f for f in findings if f.get("status") == "known"}
+    rest = []
+    for h in hits:
+        m = re.match(r"KNOWN:(\w+) ", h.get("what", ""))
+        if m and m.group(1) in known_ids:
+            line = "KNOWN-FINDING: property=%s %s: %s" % (prop.id, m.group(1), known_ids[m.group(1)].get("what", ""))
+            if line not in known_lines:
+                known_lines.append(line)
+        else:
+            rest.append(h)
+    hits = rest
     if broken and not hits:
         try:
             for case, what in prop.search(tier, rng, 20 if tier == "quick" else 600):
